@@ -15,6 +15,8 @@ def main():
     rule = ('fault schedules: every Read call may behave as {full read, short read without error, error before any byte, partial data + EOF, '
             'all data + error, zero bytes without error}; up to %d non-nominal reads per run at any call index, up to %d candidates; data bytes and key/digest symbolic; '
             'a schedule is non-trivial when it contains at least one non-nominal read' % (budget, maxc))
+    ck.bounds.append(rule)
+    ck.outside.append('more than %d non-nominal reads in one run; more than %d candidates; readers that return n > len(p) or panic (contract violations of io.Reader); blocking readers' % (budget, maxc))
     eng = proto_engine(prog)
     fails = {}
     scheds = set()
